@@ -93,6 +93,21 @@ func vcGen(r *gen.Rand) vcScenario {
 			txs[i], txs[j] = txs[j], txs[i]
 		}
 	}
+	// sometimes a complete duplicate of one file follows its last part directly (a retransmission
+	// after a lost answer), possibly while the file is held for a predecessor that has not arrived
+	if r.Chance(1, 3) && len(sc.files) > 0 {
+		f := sc.files[r.Intn(len(sc.files))]
+		last := -1
+		for i, t := range txs {
+			if t.f.name == f.name {
+				last = i
+			}
+		}
+		if last >= 0 {
+			dup := tx{f, 0, len(f.content)}
+			txs = append(txs[:last+1], append([]tx{dup}, txs[last+1:]...)...)
+		}
+	}
 	for _, t := range txs {
 		sc.ops = append(sc.ops, vsOp{kind: "PR", part: vsPart{name: t.f.name, size: int64(len(t.f.content))}})
 		sc.ops = append(sc.ops, vsOp{kind: "RC", part: vsPart{name: t.f.name, renamed: t.f.renamed, prev: t.f.prev, hash: t.f.hash,
